@@ -352,6 +352,10 @@ def _work(arg):
 
 
 # -- line level --------------------------------------------------------------
+class _AskedForever(Exception):
+    pass
+
+
 def line_level(kind_spec_factory, s, route):
     """one-line form on the real Solver; returns what the definition received"""
     seen = []
@@ -385,6 +389,8 @@ def line_level(kind_spec_factory, s, route):
 
     def prompt(missing, needed_by):
         asked.append(missing.name())
+        if len(asked) > 6:
+            raise _AskedForever()
         if route == 'file+prompt':
             return (None, False)      # the user declines; the input was in the file anyway
         if not missing.valid(s):
@@ -399,6 +405,8 @@ def line_level(kind_spec_factory, s, route):
             return 'reported-missing-although-supplied', seen
     except hi.InvalidInput:
         return 'invalid', seen
+    except _AskedForever:
+        return 'asked-forever', seen
     except (configparser.Error, ValueError):
         return 'ini', seen
     return ('solved' if ok else 'failed'), seen
@@ -423,6 +431,8 @@ def _line_work(strings):
             for route in ('file', 'prompt', 'file+prompt'):
                 n += 1
                 status, seen = line_level(fac, s, route)
+                if status == 'asked-forever':
+                    errs.append((kind, 'line/' + route, s, 'the same input is asked for again and again although it is answered each time'))
                 if status in ('asked-although-supplied', 'reported-missing-although-supplied'):
                     errs.append((kind, 'line/' + route, s, f'text supplied in the file: {status} (an interactive solve must report invalid text as invalid, not ask again)'))
                 for x in seen:
